@@ -18,11 +18,26 @@ RULE = ("message sequences (1..40 application requests/answers from the bare 20-
         "followed by a close whose thread and socket release is checked")
 
 
-def build_sequence(rng, n, big=False):
+class Raw:
+    """a correctly framed message the decoder refuses (an AVP that claims more bytes than the message has): it is no message
+    of the sequence, the ones around it are"""
+    def __init__(self, seq):
+        body = (263).to_bytes(4, "big") + b"\x40" + (64).to_bytes(3, "big") + b"abcd"
+        self.wire = b"\x01" + (20 + len(body)).to_bytes(3, "big") + b"\xc0" + (272).to_bytes(3, "big") + (4).to_bytes(4, "big") + (0x66000000 + seq).to_bytes(4, "big") * 2 + body
+
+
+def encode(m):
+    return m.wire if isinstance(m, Raw) else R.encode(m)
+
+
+def build_sequence(rng, n, big=False, bad=0.0):
     msgs, kinds = [], []
     seq = 1
     for i in range(n):
         c = rng.random()
+        if bad and rng.random() < bad:
+            msgs.append(Raw(seq))
+            kinds.append(("BAD", None))
         if c < 0.2:
             m = N.dwr(hbh=1000 + seq, e2e=2000 + seq)
             kinds.append(("DWR", 1000 + seq))
@@ -81,8 +96,11 @@ def segmentation(rng, total, boundaries, mode):
 
 def execute(acc, case):
     rng = random.Random(case["seed"])
-    msgs, kinds = build_sequence(rng, case["n"], case.get("big", False))
-    encs = [R.encode(m) for m in msgs]
+    msgs, kinds = build_sequence(rng, case["n"], case.get("big", False), case.get("bad", 0.0))
+    encs = [encode(m) for m in msgs]
+    nbad = len([k for k in kinds if k[0] == "BAD"])
+    if nbad:
+        acc.counters["refused_messages_in_the_sequences"] += nbad
     stream = b"".join(encs)
     boundaries, t = [], 0
     for e in encs:
@@ -124,13 +142,13 @@ def execute(acc, case):
                 # park sweep (DESIGN 2.5b): the application thread is descheduled at its n-th source line inside get_message()
                 # until the state machine has handed over every message of the sequence (or one virtual second has passed)
                 sc.sched.parks.append({"task": "consumer", "nth": case["park"], "timeout": 1.0,
-                                       "release": lambda: len([c for c in sc.consumed if c[0] == "Open"]) >= len(kinds)})
+                                       "release": lambda: len([c for c in sc.consumed if c[0] == "Open"]) >= len(kinds) - nbad})
             sc.sched.spawn("consumer", consumer)
             expected_app = [k for k in kinds if k[0] == "APP"]
             expected_dwr = [k[1] for k in kinds if k[0] == "DWR"]
             t_inject[0] = sc.sched.now + 1e-9
             sc.inject(stream, chunks=chunks, settle=case.get("settle", True))
-            done = lambda: len(delivered) >= len(expected_app) and len([c for c in sc.consumed if c[0] == "Open"]) >= len(kinds)
+            done = lambda: len(delivered) >= len(expected_app) and len([c for c in sc.consumed if c[0] == "Open"]) >= len(kinds) - nbad
             t_last_byte = sc.sched.now
             ok = sc.sched.run_until(done, 3.0 + 0.01 * len(kinds), "delivery")
             sc.sched.run_until(lambda: False, 0.01, "grace")     # a little longer: duplicates would show up now
@@ -183,7 +201,7 @@ def execute(acc, case):
             # base-protocol messages: consumed by the state machine in the order sent (observed where the state
             # machine takes messages off its queue; whether the DWAs reach the wire is C05/C07's business)
             sent_order = [(280, 1000 + 0) for _ in ()]
-            sent_ids = [k[1] for k in kinds]
+            sent_ids = [k[1] for k in kinds if k[0] != "BAD"]
             consumed_ids = [c[3] for c in sc.consumed if c[0] == "Open" and c[3] in set(sent_ids)]
             if not sc.sched.deaths and ok and consumed_ids != sent_ids:
                 acc.violation("state-machine-consumption-out-of-order", "state machine consumed %s, peer sent %s" % (consumed_ids[:30], sent_ids[:30]), wit)
@@ -346,7 +364,8 @@ def plan(tier, seed):
         cases.append({"seed": seed * 100003 + i, "n": rng.choice([1, 2, 3, 5, 8, 20, 40]) if not q else rng.choice([1, 2, 3, 5, 8]),
                       "seg": rng.choice(modes), "strategy": strat, "p": rng.choice([0.02, 0.1, 0.3]),
                       "role": rng.choice(["client", "server"]), "settle": rng.random() < 0.7,
-                      "recv_cap": rng.choice([None, None, 1, 7, 64, 4096]), "transport": rng.choice(["TCP", "TCP", "TCP", "SCTP"])})
+                      "recv_cap": rng.choice([None, None, 1, 7, 64, 4096]), "transport": rng.choice(["TCP", "TCP", "TCP", "SCTP"]),
+                      "bad": (0.0, 0.0, 0.2)[i % 3]})
     for nth in range(0, 70 if q else 160):
         for seg in (["whole"] if q else ["whole", "per-message", "header-internal"]):
             cases.append({"seed": seed * 31 + nth, "n": 5, "seg": seg, "strategy": "rw", "p": 0.02, "role": ("client", "server")[nth % 2],
@@ -386,7 +405,7 @@ def main(tier, seed):
                           ["vnet is a model of Linux TCP sockets (fidelity self-test in tools/selftest_vnet.py); schedules are explored at "
                            "synchronisation-operation and source-line granularity of transport.py/setup.py/statemachine.py",
                            "bounded progress: all messages delivered within 3 virtual seconds after the last byte (the unchanged code needs milliseconds)"],
-                          t0, require_counters=("executions", "steps", "recv_chunks", "real_loopback_ok", "consumer_parked_while_messages_arrive", "library_thread_parked_while_bytes_arrive", "twin_node_executions"))
+                          t0, require_counters=("executions", "steps", "recv_chunks", "real_loopback_ok", "consumer_parked_while_messages_arrive", "library_thread_parked_while_bytes_arrive", "twin_node_executions", "refused_messages_in_the_sequences"))
 
 
 def replay(w):
